@@ -22,6 +22,7 @@ from typing import Callable
 
 from fiddle import daglish
 from fiddle._src import config as config_lib
+from fiddle._src import tagging
 from fiddle._src.codegen.auto_config import code_ir
 from fiddle._src.codegen.auto_config import import_manager_wrapper
 from fiddle._src.codegen.auto_config import make_symbolic_references as ac_make_symbolic_references
@@ -92,9 +93,22 @@ def replace_callables_and_configs_with_symbols(
               " value to the field first or removing field tags from your"
               " config, for example using `fdl.clear_tags`."
           )
-        value.__arguments__[arg] = code_ir.WithTagsCall(
-            tag_symbol_expressions=tag_expr,
-            item_to_tag=value.__arguments__[arg],
+        # Outside of an auto_config function, `auto_config.with_tags` returns
+        # its value unchanged (and the module is not imported here), so tags
+        # are attached with an explicit TaggedValue.
+        del tag_expr
+        value.__arguments__[arg] = code_ir.SymbolOrFixtureCall(
+            symbol_expression=import_manager_wrapper.add(
+                tagging.TaggedValue, task.import_manager
+            ),
+            positional_arg_expressions=[],
+            arg_expressions={
+                "tags": [
+                    import_manager_wrapper.add(tag, task.import_manager)
+                    for tag in sorted(arg_tags, key=lambda tag: tag.name)
+                ],
+                "default": value.__arguments__[arg],
+            },
         )
       return code_ir.SymbolOrFixtureCall(
           symbol_expression=ir_for_buildable_type,
